@@ -359,6 +359,27 @@ pub fn run(s: &mut Session, ctx: &Ctx) {
         check_rearrange(s, &cols, m);
     }
 
+    // near-duplicates: colours that are equal (or adjacent) as 8-bit values but differ as HSL floats - fixed
+    // colours typed as hsl()/lab() are such - next to an 8-bit colour: their true distances are a few tenths,
+    // well above the 0.001 resolution of the ordering
+    for i in 0..reps / 2 {
+        let base = if i % 3 == 0 { let g = rng.u8(); Color::from_rgb(g, g, g) } else { gen::color8(&mut rng) };
+        let h = base.to_hsla();
+        let mut cols = vec![base.clone()];
+        for _ in 0..(2 + rng.below(3)) {
+            cols.push(Color::from_hsla(h.h + rng.range(-120.0, 120.0) * if h.s < 0.01 { 1.0 } else { 0.004 }, (h.s + rng.range(0.0, 0.004)).clamp(0.0, 1.0), (h.l + rng.range(-0.0015, 0.0015)).clamp(0.0, 1.0), 1.0));
+        }
+        for _ in 0..rng.below(3) {
+            cols.push(gen::color8(&mut rng));
+        }
+        if rng.below(2) == 0 {
+            let n = cols.len();
+            cols.swap(0, rng.below(n as u64) as usize);
+        }
+        check_rearrange(s, &cols, DistanceMetric::CIE76);
+        check_rearrange(s, &cols, DistanceMetric::CIEDE2000);
+    }
+
     // ---- simulated annealing under replayed random streams ----
     let max_n = if ctx.thorough { 8 } else { 6 };
     let mut cases = 0u64;
